@@ -1,4 +1,100 @@
+import LdarModel.Model.Cost
 import LdarModel.Driver.Proto
-/- driver stub: replaced by the component's real driver -/
-open LdarModel.Proto
-def main : IO Unit := runDriver (fun (_ : Unit) (_ : List String) => ((), "bad-op")) ()
+/-
+Driver for the cost model.
+  select <perDay> <perSite|-> <upfront> <stationary> <crews>        -> <day|site> <unitCost> <upfrontTotal>
+  mday <perDay> <perSite|-> <upfront> <scale> <stationary> <budget> <crews> <considerWeather>
+       [tLo,tHi,wLo,wHi,pLo,pHi] [[site,S,P,inProgress,travelSoFar,T,siteCost,temp,wind,precip],...]
+                                                                   -> <day|site> <unitCost> <upfrontTotal> <deployCost>
+  row <first> [[deploy,upfront],...] <repCost> <natRepCost>        -> <cost> <repCost> <natRepCost> [cols]
+  prog [[[[deploy,upfront],...],rep,nat],...]                      -> cost;cost;... | <total>
+  repair <start> <nrd> <delay> <N> <cost> [[day,company,trd],...]  -> rep:nat;rep:nat;... | <sumRep> <sumNat>
+  mcost <S> <stationary> <charge> [[R,T,workable,served],...]      -> <total charged> <complete>
+-/
+open LdarModel LdarModel.Crew LdarModel.Cost LdarModel.Proto
+
+def showType : CostType → String
+  | .perDay => "day" | .perSite => "site"
+
+def parseMD (s : String) : Option MethodDay := do
+  match ← intList? s with
+  | [d, u] => some { deploy := d, upfront := u }
+  | _ => none
+
+def parseDayData (s : String) : Option DayData := do
+  match ← splitTop s with
+  | [ms, r, n] => some { methods := ← listOf? parseMD ms, repCost := ← int? r, natRepCost := ← int? n }
+  | _ => none
+
+def parseDayIn (s : String) : Option DayIn := do
+  match ← intList? s with
+  | [r, t, w, sv] => some { R := r, T := t, workable := w ≠ 0, served := sv ≠ 0 }
+  | _ => none
+
+def parseReq (s : String) : Option Req := do
+  match ← intList? s with
+  | [site, sS, p, ip, trav, t, sc, wt, ww, wp] =>
+    if site < 0 then none else
+    some { site := site.toNat, S := sS, siteCost := sc,
+           rep := { surveyed := p, travel := trav, inProgress := ip ≠ 0 }, T := t,
+           wx := { temp := wt, wind := ww, precip := wp } }
+  | _ => none
+
+def parseEnv (s : String) : Option Envelope := do
+  match ← intList? s with
+  | [a, b, c, d, e, f] => some { tempLo := a, tempHi := b, windLo := c, windHi := d, precipLo := e, precipHi := f }
+  | _ => none
+
+def parseEv (s : String) : Option (Nat × Emission.TagEv) := do
+  match ← intList? s with
+  | [d, c, t] => if d < 0 ∨ c < 0 then none else some (d.toNat, { company := c.toNat, trd := t })
+  | _ => none
+
+def mkCost (pd : Int) (ps : Option Int) (up : Int) : MethodCost := { perDay := pd, perSite := ps, upfront := up }
+
+def step (_ : Unit) (toks : List String) : Unit × String :=
+  match toks with
+  | ["select", pd, ps, up, st, n] =>
+    match int? pd, optInt? ps, int? up, bool? st, nat? n with
+    | some pd, some ps, some up, some st, some n =>
+      let c := mkCost pd ps up
+      ((), s!"{showType (selectCost c).1} {(selectCost c).2} {upfrontCost c st n}")
+    | _, _, _, _, _ => ((), "bad-op")
+  | ["mday", pd, ps, up, sc, st, b, n, cw, env, reqs] =>
+    match int? pd, optInt? ps, int? up, nat? sc, bool? st, int? b, nat? n, bool? cw, parseEnv env, listOf? parseReq reqs with
+    | some pd, some ps, some up, some sc, some st, some b, some n, some cw, some env, some reqs =>
+      let c := mkCost pd ps up
+      let md := methodDay c st cw env sc b n reqs
+      ((), s!"{showType (selectCost c).1} {(selectCost c).2} {md.upfront} {md.deploy}")
+    | _, _, _, _, _, _, _, _, _, _ => ((), "bad-op")
+  | ["row", f, ms, r, n] =>
+    match bool? f, listOf? parseMD ms, int? r, int? n with
+    | some f, some ms, some r, some n =>
+      let row := dailyRow f ms r n
+      ((), s!"{row.cost} {row.repCost} {row.natRepCost} {showList toString row.methodCols}")
+    | _, _, _, _ => ((), "bad-op")
+  | ["prog", days] =>
+    match listOf? parseDayData days with
+    | some days =>
+      let rows := programRows days
+      ((), ";".intercalate (rows.map (fun r => toString r.cost)) ++ " | " ++ toString (rows.map (·.cost)).sum)
+    | none => ((), "bad-op")
+  | ["repair", st, nrd, dl, n, cost, evs] =>
+    match int? st, int? nrd, int? dl, nat? n, int? cost, listOf? parseEv evs with
+    | some st, some nrd, some dl, some n, some cost, some evs =>
+      let p : Emission.Params := { start := st, nrd := nrd, repairDelay := dl, repairable := true,
+                                   intermittent := false, activeDur := 1, inactiveDur := 0 }
+      let ev : Nat → List Emission.TagEv := fun d => (evs.filter (fun e => e.1 = d)).map (·.2)
+      let days := (List.range n).map (fun d => bookDay p cost ev d)
+      ((), ";".intercalate (days.map (fun x => s!"{x.1}:{x.2}")) ++
+           s!" | {sumTo (fun d => (bookDay p cost ev d).1) n} {sumTo (fun d => (bookDay p cost ev d).2) n}")
+    | _, _, _, _, _, _ => ((), "bad-op")
+  | ["mcost", s, st, ch, days] =>
+    match int? s, bool? st, int? ch, listOf? parseDayIn days with
+    | some s, some st, some ch, some days =>
+      let r := surveyCostRun st s ch days {} 0
+      ((), s!"{r.2} {showBool r.1.complete}")
+    | _, _, _, _ => ((), "bad-op")
+  | _ => ((), "bad-op")
+
+def main : IO Unit := runDriver step ()
